@@ -420,6 +420,10 @@ fn symmetry(ctx: &mut Ctx, s: &Session, l1: &[Mv]) -> Step {
         Ok(b) => b,
         Err(e) => return ctx.fail(Prop::C06, "parse.rejected-canonical", String::new(), format!("mirror FEN {mfen:?} rejected: {e}")),
     };
+    // a mirror that was loaded wrongly is the loader's failure (C05), not an asymmetry of the engine
+    if let Some(comp) = op(Op::Print, || sut::load_mismatch(&mboard, &mirror)) {
+        return ctx.fail(Prop::C05, "fen.parsed-differs", format!("component={comp}"), format!("parsing {mfen:?}: the board differs in {comp}"));
+    }
     let a = depth_scores(&s.board, ctx.stats);
     let b = depth_scores(&mboard, ctx.stats);
     ctx.stats.bump("c13.positions");
@@ -493,7 +497,8 @@ pub fn at_position(ctx: &mut Ctx, s: &Session, l1: &[Mv], game_tf: &ThreeFold) -
         t.stm ^= 1;
         t.ep = None;
         if t.validity().is_ok() {
-            if let Ok(tb) = op(Op::Parse, || sut::to_board(&t)) {
+            let loaded = op(Op::Parse, || sut::to_board(&t)).ok().filter(|tb| op(Op::Print, || sut::load_mismatch(tb, &t)).is_none());
+            if let Some(tb) = loaded {
                 ctx.stats.bump("fault.sched.interleaved-sibling-search");
                 let k = 8 + ctx.tape.log_uniform(3000) as u64;
                 let o = search(&tb, &empty, k, ctx.tape.choose(2) == 1);
